@@ -284,6 +284,57 @@ func genPoolSrc(repo string) (string, error) {
 		}
 	}
 
+	// locking discipline of poolMultiplex.init: is the dial inside the clientMux critical section that stores the client?
+	mxDialLocked := false
+	if fd := FindFunc(f3, "poolMultiplex", "init"); fd == nil {
+		bad("multiplex init not found")
+	} else {
+		var lit *ast.FuncLit
+		ast.Inspect(fd.Body, func(x ast.Node) bool {
+			if fl, isLit := x.(*ast.FuncLit); isLit && lit == nil {
+				lit = fl
+			}
+			return lit == nil
+		})
+		if lit == nil {
+			bad("multiplex init: goroutine body not found")
+		} else {
+			iLock, iDefer, iDial, iStore := -1, -1, -1, -1
+			for i, st := range lit.Body.List {
+				txt := exprStr(fset3, st)
+				switch {
+				case txt == "p.clientMux.Lock()" && iLock < 0:
+					iLock = i
+				case txt == "deferp.clientMux.Unlock()" && iDefer < 0:
+					iDefer = i
+				}
+				if containsCall(st, "newActiveClient") && iDial < 0 {
+					iDial = i
+				}
+				if containsCall(st, "Store") && iStore < 0 {
+					iStore = i
+				}
+			}
+			switch {
+			case iLock < 0 || iDial < 0 || iStore < 0 || iDefer != iLock+1:
+				bad("multiplex init: lock (%d), deferred unlock (%d), dial (%d) or store (%d) not recognised", iLock, iDefer, iDial, iStore)
+			case iLock < iDial && iDial < iStore:
+				mxDialLocked = true
+			case iDial < iLock && iLock < iStore:
+				mxDialLocked = false
+			default:
+				bad("multiplex init: unrecognised order of lock (%d), dial (%d), store (%d)", iLock, iDial, iStore)
+			}
+		}
+	}
+	if fd := FindFunc(f3, "poolMultiplex", "onConnectionEvent"); fd != nil {
+		txt := exprStr(fset3, fd.Body)
+		il, iv := strings.Index(txt, "p.clientMux.Lock()"), strings.Index(txt, "v==ac")
+		if il < 0 || iv < 0 || il > iv {
+			bad("multiplex onConnectionEvent: the slot test is not under clientMux")
+		}
+	}
+
 	var b strings.Builder
 	b.WriteString("From MV Require Import Model.Pool Model.PoolMx.\n")
 	for _, n := range notes {
@@ -291,6 +342,7 @@ func genPoolSrc(repo string) (string, error) {
 	}
 	fmt.Fprintf(&b, "Definition pool_src_switches : switches := mkSw %v %v %v %v.\n", checkFirst, httpResetAny, ppClose, ppResetAny)
 	fmt.Fprintf(&b, "Definition poolmx_src_switches : mx_switches := mkMxSw %v %v.\n", mxFlag, mxOwn)
+	fmt.Fprintf(&b, "Definition poolinit_src_mx_dial_locked : bool := %v.\n", mxDialLocked)
 	fmt.Fprintf(&b, "Definition PoolSrc_translator_ok := %v.\n", ok)
 	return b.String(), nil
 }
